@@ -486,36 +486,21 @@ def stepEv (batch : Nat) (p : Params) (own : Own) (wallets : List Wid) (w : Wid)
     { sys with s := r.1, v := r.2.1 }
   | .node ch => { sys with node := { sys.node with chain := ch } }
 
-/-- FULL statement of import_exact, kept type-checked.  For every batch size, every history of batches, tip
-    notifications, reorganisations (below or above the cursor) and node movements after the import moment: once the
-    wallet is done and the follower has caught up with the node, what the wallet reports is what the chain
-    specification `MW.Spec.Chain` says for the node's chain — i.e. exactly what a wallet that watched live reports
-    (C01).
-    NOT PROVED.  Proved instead (all universally quantified, about the executable model):
-      · the schedule: `import_run_exact`, `import_batches_adjacent`, `import_progress` — batches partition the
-        heights, nothing skipped or repeated, chain order;
-      · the content of a batch: `import_plan_exact` — exactly the node's transactions touching the wallet;
-      · the chain read is the follower's own: `batchHead_ok` + `followed_chain_agrees`;
-      · cursors under reorganisation: `pullBack_spec`.
-      · the per-transaction step: `import_tx_eq_live` — on a transaction the store has not recorded yet the rescan's
-        `addRelevantTxForImporting` IS the live follower's `addRelevantMined`, so the ledger library's
-        `spendOne_refines` / `creditOne_refines` / `applyPhase_refines` (C01) are facts about the rescan too.
-    STILL MISSING, now that C01's `Inv`, `connect_sound`, `rollback_connect`, `reorg_reaches` exist:
-    (1) RECORDS: that `filterTxForImporting` on the items of `plan` yields, block by block, records satisfying the
-        library's `Matches p own_w B (occsOfBlock b)` for `own_w` = the keystore being restored (the library proves
-        this for the live `filterTxs` — `filterTxs_block` under `FilterCtx` — whose previous-output lookup is gated
-        by `existCreditFromTx` and reads `Node.fetchTx`, where the rescan reads `fetchTxUntil`);
-    (2) INVARIANT WITH A WALLET THAT IS NOT READY: `Inv` / `connect_sound` / `reorg_reaches` assume
-        `AllReady c.own ready` (every keystore's wallet is ready).  While a wallet imports, the follower books the
-        ready wallets only, the rescan books the importing one up to its cursor, and `rollback` (which looks
-        addresses up in ALL keystores) undoes both: the invariant needed is the pair "books of the ready wallets for
-        the followed chain" + "books of the importing wallet for the chain up to its cursor", preserved by
-        `filterBlock`, `rollback`/`disconnectBlock` (with `pullBack`) and `importStep`;
-    (3) PENDING SIDE: the rescan calls `removeDoubleSpends` with the global keystore table while (1)–(2) reason with
-        the restricted one; the two differ on pending buckets only (`MinedEq`), which needs a congruence lemma for
-        `addRelevantMined` modulo `MinedEq`.
-    The three-way differential runs cover all of this (implementation = model = `ledgerOf` after every import, also
-    under reorganisations at / below / above the cursor and flip-flops). -/
+/-- FULL statement of import_exact as written in round 1, kept type-checked.  For every batch size, every history of
+    batches, tip notifications, reorganisations (below or above the cursor) and node movements after the import moment:
+    once the wallet is done and the follower has caught up with the node, what the wallet reports is what the chain
+    specification `MW.Spec.Chain` says for the node's chain — i.e. exactly what a wallet that watched live reports (C01).
+    STATUS (round 5): in this LITERAL form the statement is TOO STRONG — `import_exact_full_literal_false` refutes it
+    with a store whose synced-to pointer disagrees with its synced-to table at the import moment (the literal
+    hypotheses say nothing about the store following the node's chain; they also admit ill-formed node chains and
+    batches on a ready wallet).  The statement WITH the needed hypotheses — at the import moment the store follows the
+    chain (C01's `Inv` for the other, ready, wallets), chains are hash-linked / valid / made of known blocks, notified
+    blocks are on the node's chain, batches run while the wallet is importing — is PROVED: `import_exact_full_good`
+    (stage 3), on top of stage 1 (`import_exact_static_full`), stage 2 (`import_exact_extensions_joined`,
+    `import_exact_reorg_joined`) and the schedule / content theorems of round 1 (`import_run_exact`,
+    `import_batches_adjacent`, `import_progress`, `import_plan_exact`, `batchHead_ok`, `followed_chain_agrees`,
+    `pullBack_spec`, `import_tx_eq_live`).  Unconfirmed transactions (`recvTx`) are not events of these histories
+    (the theorems hold for any content of the pending buckets); the three-way differential runs cover them. -/
 def import_exact_full : Prop :=
   ∀ (batch : Nat) (p : Params) (own : Own) (wallets : List Wid) (w : Wid) (sys0 : Sys) (evs : List Ev) (minConf : Nat),
     batch > 0 →
@@ -923,18 +908,11 @@ theorem stepX_is_stepEv (batch : Nat) (p : Params) (own : Own) (wallets : List W
     | error e => exact ⟨rfl, rfl, rfl⟩
     | ok x => obtain ⟨s', v', f⟩ := x; exact ⟨rfl, rfl, rfl⟩
 
-/-- FULL statement of stage 2, kept type-checked; NOT PROVED.  Other wallets in the instance (ready ones are booked
-    by the live follower while `w` imports), batches interleaved with ARBITRARY notifications — extensions and
-    reorganisations above / at / below the cursor (`processBlock` → `reorg` → `rollback` / `disconnectBlock` with
-    the cursor pull-back) — and node movements (`stepEv`): whenever the wallet is done and the follower has caught
-    up with the node, the store satisfies `Inv` for the node's chain.  What is proved of it:
-    `import_exact_static_full` (no event but batches, other wallets present), `import_exact_extensions_partial`
-    (extensions, single keystore) and `import_exact_extensions_joined` (batches interleaved with tip extensions,
-    other ready wallets present, node and follower moving together) and `import_exact_reorg_partial` (batches
-    interleaved with extensions AND reorganisations above / at / below the cursor, single keystore) and
-    `import_exact_reorg_joined` (the same with other ready wallets followed live).  Missing: (b) node movements that are not followed at once by their notification (a
-    batch then meets the followed-chain check: `batchHead_ok`); (c) histories with unconfirmed transactions
-    (`recvTx`): the theorems above hold for ANY content of the pending buckets but the events are mined-side only. -/
+/-- the stage-2 statement in the vocabulary of `import_exact_full` (`stepEv` with arbitrary `Ev` lists), kept
+    type-checked; NOT PROVED in this literal form (it lets batches run on a ready wallet and notifies blocks that need
+    not be on the node's chain).  SUPERSEDED by the proved `import_exact_extensions_joined`, `import_exact_reorg_joined`
+    (stage 2) and `import_exact_full_good` (stage 3), whose events are tied to `stepEv` by `stepX_is_stepEv`,
+    `stepR_is_stepEv`, `stepG_is_stepEv`. -/
 def import_exact_moving_full : Prop :=
   ∀ (batch : Nat) (p : Params) (own : Own) (wallets : List Wid) (w : Wid) (sys0 : Sys) (evs : List Ev),
     batch > 0 → Lemmas.Ledger.KeysNodup own → w ∈ wallets →
@@ -1574,5 +1552,27 @@ example : (let r := Ex7.evs.foldl (Lemmas.ImportJoin.stepG 1 Lemmas.Ledger.d2Ctx
            (r.v.best, useWallet r.s ["W1", "W2"] "W1", walletBalance r.s "W2" 1,
             (AMap.get r2.s.status "W1").map (·.synced), r2.v.best)) =
     (⟨3, "B3a"⟩, .ok, some ⟨690, 690, 0, 0⟩, some (some 1), ⟨2, "B2"⟩) := by rfl
+
+-- the LITERAL `import_exact_full` is too strong: it does not ask that the store FOLLOWS the node's chain at the import
+-- moment.  Witness: the store of `Ex` with the synced-to POINTER left at 0 while the synced-to TABLE holds the whole
+-- chain (not reachable in the code — `putSyncedTo` writes both — but allowed by the literal hypotheses): one batch
+-- finishes the rescan, all final conditions hold, and WalletBalance with minConf 3 counts T3:0 (height 2) as
+-- spendable (confirmations are computed from the pointer: u64(0 − 2 + 1)), where `Spec.Chain` says 2 confirmations.
+-- The hypothesis that is needed — at the import moment the store follows the chain (C01's `Inv` for the other
+-- wallets, which includes the pointer) — is exactly the one `import_exact_full_good` has.
+theorem import_exact_full_literal_false : ¬ import_exact_full := by
+  intro h
+  have := h 1000 ctx.p ctx.own ctx.wallets "W1" ⟨ctx.node, { st with syncedTo := 0 }, vol⟩ [Ev.batch] 3 (by decide)
+    ⟨by decide, by decide, by decide, by decide⟩
+    ⟨by decide, by decide, by
+      intro hh b hb
+      have hb' : [g, b1, b2, b3][hh]? = some b := hb
+      match hh with
+      | 0 => simp at hb'; subst hb'; rfl
+      | 1 => simp at hb'; subst hb'; rfl
+      | 2 => simp at hb'; subst hb'; rfl
+      | 3 => simp at hb'; subst hb'; rfl
+      | (n + 4) => simp at hb'⟩
+  exact absurd this (by decide)
 
 end MW.Props.C07
